@@ -98,6 +98,34 @@ Section Reader.
     end.
 End Reader.
 
+(* The data file documents its own layout: three header lines label the columns ("Thermal (b)",
+   "Resonance (b)", "t1/2 in hr", "t1/2 of parent", "thermal / resonance ... of 2n precursor", "Abund",
+   "Z", "A", "Nuclide", "%IT", "Comments").  The column a name of COLUMN_NAMES selects must be the
+   column so labelled. *)
+Fixpoint find_cell (label : string) (cols : list string) (i : nat) : option nat :=
+  match cols with
+  | [] => None
+  | x :: r => if String.eqb (strip x) label then Some i else find_cell label r (S i)
+  end.
+Fixpoint header_col (lines : list string) (label : string) : option nat :=
+  match lines with
+  | [] => None
+  | l :: r =>
+      let raw := split_char (ascii_of_nat 9) l in
+      let c0 := strip (hd "" raw) in
+      if (String.eqb c0 "" || String.eqb c0 "xx")%bool then
+        match find_cell label raw 0 with Some i => Some i | None => header_col r label end
+      else header_col r label
+  end.
+Definition header_labels : list (string * string) :=
+  [("Thermal", "thermalXS"); ("Resonance", "resonance"); ("in hr", "Thalf_hrs"); ("parent", "Thalf_parent");
+   ("thermal", "thermalXS_parent"); ("resonance", "resonance_parent"); ("Abund", "abundance");
+   ("Z", "Z"); ("A", "A"); ("Nuclide", "daughter"); ("%IT", "percentIT"); ("Comments", "comments")].
+Definition opt_nat_eqb (a b : option nat) : bool :=
+  match a, b with Some x, Some y => Nat.eqb x y | _, _ => false end.
+Definition columns_match_header (names lines : list string) : bool :=
+  forallb (fun p => opt_nat_eqb (header_col lines (fst p)) (index_of (snd p) names 0)) header_labels.
+
 Definition the_rows : option (list arow) :=
   read_lines act_column_names act_int_columns act_bool_columns act_float_columns activation_dat [].
 
